@@ -371,9 +371,6 @@ func apply(t *tamperCtx, name string) error {
 			return nil
 		}
 		it.ops = it.ops[:len(it.ops)-1]
-		if len(it.ops) == 0 {
-			t.dropOps = true
-		}
 	case "ops_dup":
 		if len(it.ops) < 1 {
 			t.na = name
@@ -433,9 +430,6 @@ func apply(t *tamperCtx, name string) error {
 			}
 		}
 		it.sts = append(it.sts[:k:k], it.sts[k+1:]...)
-		if len(it.sts) == 0 {
-			t.dropSts = true
-		}
 	case "sts_extra":
 		if hasKey(it.sts, isaac.NetworkPolicyStateKey) || it.ststree.Len() < 1 {
 			t.na = name
